@@ -19,6 +19,8 @@ pub struct Profile {
     /// 0 = mixed key lengths, 1 = 11-byte keys (key slot exactly full), 2 = long keys too
     pub key_mode: u8,
     pub cmp_mode: u8,
+    /// a key outside the pool is used once in `fresh` operations (12 by default; the live set keeps growing)
+    pub fresh: u64,
 }
 
 impl Profile {
@@ -32,6 +34,7 @@ impl Profile {
             val_mode: 1,
             key_mode: 0,
             cmp_mode: 1,
+            fresh: 12,
         }
     }
 }
@@ -214,7 +217,7 @@ pub fn gen_history(rng: &mut Rng, p: &Profile) -> Seq {
             r -= *w;
         }
         let key = |rng: &mut Rng| -> B {
-            if rng.chance(1, 12) {
+            if rng.chance(1, p.fresh) {
                 gen_key(rng, p.kt, p.key_mode)
             } else {
                 rng.pick(&pool).clone()
